@@ -169,6 +169,14 @@ func runEndpoint(t *testing.T, c *engine.Check) {
 // endpointCase presents tok at one endpoint and judges what the provider did.
 // helperRule != "" (interop part): the expectation was fixed by the caller.
 func endpointCase(t *testing.T, r *rig.Rig, opName, router string, a assertionT, tok, atype, cid string, now time.Time, helperRule string) engine.Result {
+	res, _ := endpointCaseW(t, r, opName, router, a, tok, atype, cid, now, helperRule, false)
+	return res
+}
+
+// endpointCaseW additionally returns the expectation of the reference predicate.
+// laterRequest: the provider instance has served requests before (part "history-endpoint");
+// then acting without a fresh key lookup is not objected to.
+func endpointCaseW(t *testing.T, r *rig.Rig, opName, router string, a assertionT, tok, atype, cid string, now time.Time, helperRule string, laterRequest bool) (_ engine.Result, expect want) {
 	expect, rule := judge(a, tok, eT0, now, providerCfg)
 	if helperRule != "" {
 		rule = helperRule + ":" + rule
@@ -224,7 +232,7 @@ func endpointCase(t *testing.T, r *rig.Rig, opName, router string, a assertionT,
 	})
 	site := "/" + router + "/" + opName
 	if pan != "" {
-		return engine.Bad(rule, "harness-panic", "C14/harness-panic", pan)
+		return engine.Bad(rule, "harness-panic", "C14/harness-panic", pan), expect
 	}
 
 	// ---- what did the provider do, and for whom?
@@ -249,7 +257,7 @@ func endpointCase(t *testing.T, r *rig.Rig, opName, router string, a assertionT,
 		for _, tk := range newTok {
 			actedFor = append(actedFor, tk.ClientID)
 			if tk.Subject != a.sub {
-				return engine.Bad(rule, "acted", "C14/bearer-token-subject-differs-from-signed-sub"+site, fmt.Sprintf("token subject %q, signed sub %q", tk.Subject, a.sub))
+				return engine.Bad(rule, "acted", "C14/bearer-token-subject-differs-from-signed-sub"+site, fmt.Sprintf("token subject %q, signed sub %q", tk.Subject, a.sub)), expect
 			}
 		}
 		for _, j := range r.Core.Calls("ValidateJWTProfileScopes") {
@@ -296,26 +304,26 @@ func endpointCase(t *testing.T, r *rig.Rig, opName, router string, a assertionT,
 
 	// ---- soundness: nothing is done on the strength of an assertion the statement rejects
 	if expect == mustReject && acted {
-		return engine.Bad(rule, outcome, "C14/acted-despite:"+rule+site, "the statement requires rejection ("+rule+") but the provider acted: "+desc())
+		return engine.Bad(rule, outcome, "C14/acted-despite:"+rule+site, "the statement requires rejection ("+rule+") but the provider acted: "+desc()), expect
 	}
 	if acted {
 		for _, id := range actedFor {
 			if id != a.iss {
-				return engine.Bad(rule, outcome, "C14/acted-for-other-than-iss"+site, fmt.Sprintf("provider acted for %q, assertion names iss %q: %s", id, a.iss, desc()))
+				return engine.Bad(rule, outcome, "C14/acted-for-other-than-iss"+site, fmt.Sprintf("provider acted for %q, assertion names iss %q: %s", id, a.iss, desc())), expect
 			}
 		}
 		for _, j := range r.Core.Calls("GetKeyByIDAndClientID") {
 			if j.Args[0] != a.kid || j.Args[1] != a.iss {
-				return engine.Bad(rule, outcome, "C14/key-looked-up-for-other-than-iss"+site, fmt.Sprintf("key lookup %v, expected (%s,%s): %s", j.Args, a.kid, a.iss, desc()))
+				return engine.Bad(rule, outcome, "C14/key-looked-up-for-other-than-iss"+site, fmt.Sprintf("key lookup %v, expected (%s,%s): %s", j.Args, a.kid, a.iss, desc())), expect
 			}
 		}
 		for _, j := range r.Core.Calls("GetClientByClientID") {
 			if j.Args[0] != a.iss {
-				return engine.Bad(rule, outcome, "C14/client-loaded-other-than-iss"+site, fmt.Sprintf("client lookup %v, iss %q: %s", j.Args, a.iss, desc()))
+				return engine.Bad(rule, outcome, "C14/client-loaded-other-than-iss"+site, fmt.Sprintf("client lookup %v, iss %q: %s", j.Args, a.iss, desc())), expect
 			}
 		}
-		if len(r.Core.Calls("GetKeyByIDAndClientID")) == 0 {
-			return engine.Bad(rule, outcome, "C14/acted-without-key-lookup"+site, "provider acted without asking for the key of iss: "+desc())
+		if len(r.Core.Calls("GetKeyByIDAndClientID")) == 0 && !laterRequest {
+			return engine.Bad(rule, outcome, "C14/acted-without-key-lookup"+site, "provider acted without asking for the key of iss: "+desc()), expect
 		}
 	}
 	// ---- completeness: the canonical valid assertion of an eligible client is honoured
@@ -324,12 +332,12 @@ func endpointCase(t *testing.T, r *rig.Rig, opName, router string, a assertionT,
 			rule = "valid-assertion-of-eligible-client"
 		}
 		if !served && helperRule != "" {
-			return engine.Bad(rule, outcome, "C14/helper-made-assertion-not-honoured"+site, "assertion made by the library's own helper, all conditions hold, client registered for the operation, but it was not served: "+desc())
+			return engine.Bad(rule, outcome, "C14/helper-made-assertion-not-honoured"+site, "assertion made by the library's own helper, all conditions hold, client registered for the operation, but it was not served: "+desc()), expect
 		}
 		if !served {
-			return engine.Bad(rule, outcome, "C14/valid-assertion-not-honoured"+site, "all conditions hold, the client is registered for the operation, but it was not served: "+desc())
+			return engine.Bad(rule, outcome, "C14/valid-assertion-not-honoured"+site, "all conditions hold, the client is registered for the operation, but it was not served: "+desc()), expect
 		}
-		return engine.OK(rule, outcome)
+		return engine.OK(rule, outcome), expect
 	}
 	if expect == mustAccept {
 		rule = "valid-assertion-operation-left-open"
@@ -337,7 +345,7 @@ func endpointCase(t *testing.T, r *rig.Rig, opName, router string, a assertionT,
 			rule = helperRule + ":operation-left-open"
 		}
 	}
-	return engine.OK(rule, outcome)
+	return engine.OK(rule, outcome), expect
 }
 
 // eligible: the client kinds for which the operation must succeed once authenticated.
